@@ -49,6 +49,22 @@ CHECKS = {
         text='SplineTransmissivity executed with quad replaced by an uninterpreted integral whose integrand is evaluated at one symbolic point (one path per linear piece), exp/log uninterpreted with exp(log t)=t: proved for symbolic knots (2-3 quick, 4 thorough), conductivities and level: T_min at and below the lowest knot, otherwise exactly one integral from the lowest knot to the level, integrand = exp(linear interpolant of log K) > 0, result T_min + integral; array and scalar calls produce identical terms; no exception up to the highest knot.',
         note='Monotonicity/continuity follow from the proved facts plus additivity of integrals; QUADPACK accuracy is only sampled at witness replays (closed form, 1e-6).',
         ref='5/C15'),
+    'C10': dict(
+        text='The real load_data runs on symsql from in-memory CSV texts whose timestamps are concrete and whose values are tokens resolved to symbolic reals by the staging tables: every loaded number is a term over the source values.  The engine enumerates the configurations (level record offset, 5 sampling ratios incl. finer and coarser than rainfall, up to 1-2 missing rows, row orders); per path the grid, every rainfall/ET row, every water level (= linear interpolation of the two adjacent samples), the absence of levels inside gaps and the label structure are SMT obligations against a reference computed from the configuration alone.',
+        note='R-mode; UTC; foreign keys enforced as load requests; at least two level rows and two rain instants in span; the closing instant beyond the record end has no required label.',
+        ref='5/C10'),
+    'C11': dict(
+        text='Time zones: the real generate_timestamped_rows with the real pytz code (localize/normalize/fromutc, bisect over the transition table) runs on a shim datetime whose wall clock is a symbolic integer; for every path (position of the local time among the zone transitions) the stored epoch E is proved to satisfy offset_in_force_at(E) = L - E with the offset read from the zone table; non-existent local times are recognised (proved to have no valid instant) and excluded.  8 zones + 2 seed-chosen, every second of 2012-2024 quick; all common zones over the whole table thorough.  Refusals: the C10 harness with a planted irregular rain step, a missing ET row, or a second load must raise, the last leaving the dataset unchanged.',
+        note='strptime is C code: replaced by a shim accepting the ISO format only; irregular rain must be visible among >= 3 rain instants inside the level span.',
+        ref='5/C11'),
+    'C17': dict(
+        text='compute_rise_curve on a symbolic increasing grid (3 levels quick, 4 thorough) anywhere relative to the concrete knots of a spline specific yield with symbolic knot values: W_j - W_i = G(z_j) - G(z_i) for the antiderivative G of the clamped function, mean = requested mean, differences at shared levels unchanged when a level is inserted, monotone under non-negative knot values.  simulate_rise on a symsql dataset whose interval offsets are symbolic (measured curve symbolic): output structure, level order, measured column, simulated differences = integrate between the view levels, mean of simulated = mean of measured, both output forms; witness replays through the real CLI compare with quadrature.',
+        note='FITPACK contract as C14; yaml.dump records the object; text rendering belongs to C19.',
+        ref='5/C17'),
+    'C18': dict(
+        text='compute_recession_curve on a symbolic grid with symbolic ET and curvature: one integral per cell with the right limits, integrand at a symbolic probe point proved equal to Sy/(-ET - curvature*T), denominator negative, cumulative structure and mean.  simulate_recession / dump_simulated_recession on a symsql dataset with every ET cell symbolic: the ET handed to the curve is proved to be the average over all steps inside the recession intervals, curvature and mean conversions, rows highest-to-lowest in mm with measured (days) and simulated columns; both output forms; witness replays on the real CLI.',
+        note='quad uninterpreted; reversal/refinement invariance and the zero-curvature identity follow from the proved per-cell structure by additivity/linearity of integrals (not re-proved); conductivity positive (C15).',
+        ref='5/C18'),
     'C12': dict(
         text='regrid and build_head_mapping executed on symbolic series (2..3 samples quick, 4 thorough; |y|/step <= 2; x any strictly increasing reals; several concrete steps) with interp1d/brentq replaced by their contracts; every yielded item is proved to be the next expected level of its pair, between the two samples and on the chord; nothing missing, nothing extra.',
         note='R-mode; brentq contract = root strictly between the end points when signs differ; the nonlinear chord equation is kept as a lazy fact used only by obligations; numerical accuracy of scipy is outside (witness replays compare with the exact crossing to 1e-6).',
